@@ -12,6 +12,8 @@ import PraatModel.PIMeasures
 * `pi_measures <tier|N> <n> (<t> <f0> <int>)* <doPitch> <medW|N> <globalZ> <localW>` → `ok <rows> <width> (<max> <min> <range>)*`
   (`generatePIMeasures`; the triples only for doPitch without normalisation — everything else in a row needs `statistics`/`sqrt`
   and is the oracle's business, as for op `pitch`) / `err <Class>`
+* `znormwin_shape <n> <x>* <window> <pad> <filterZero>` → `ok <n>` / `err <Class>`   (`znormWindowFilter` with its inner
+  `znormalizeCenterVal`: whether and what it raises, and the length; the values need `statistics` — oracle only)
 * `u_wsplit <str>` → `ok <k> <word>*`                                           (`str.split()`)
 -/
 
@@ -41,6 +43,14 @@ def runOpScripts (α : Type) [LT α] [LE α] [DecidableLT α] [DecidableLE α] [
       let width := (rows.headD []).length
       let cells := if doPitch && !gz && lw == 0 then rows.flatMap fun r => (r.drop 1).take 3 |>.map Out.time else []
       pure ("ok " ++ Out.join (toString rows.length :: toString width :: cells))
+  | "znormwin_shape" =>
+    letI : Inhabited α := ⟨Tm.zero⟩
+    some do
+    let n ← P.nat; let xs ← P.many n (P.time (α := α)); let w ← P.nat; let pad ← P.bool; let fz ← P.bool
+    let dummy : PI.Arith α := ⟨⟨fun _ => Tm.zero, fun _ _ => Tm.zero, fun _ => Tm.zero⟩, fun _ => Tm.zero, fun _ _ => Tm.zero⟩
+    match PI.znormWindowFilter dummy xs w pad fz with
+    | .error e => pure ("err " ++ e.name)
+    | .ok r => pure s!"ok {r.length}"
   | "u_wsplit" => some do
     let s ← P.str
     let ws := pySplit s
